@@ -1204,6 +1204,7 @@ async fn load_targets(
             max_targets_size,
             delegations,
             datastore,
+            &[],
         )
         .await?;
     }
@@ -1214,7 +1215,9 @@ async fn load_targets(
     Ok(targets)
 }
 
-// Follow the paths of delegations starting with the top level targets.json delegation
+// Follow the paths of delegations starting with the top level targets.json delegation.
+// `ancestors` holds the names of the roles on the chain of delegations that led here.
+#[allow(clippy::too_many_arguments)]
 #[async_recursion]
 async fn load_delegations(
     transport: &dyn Transport,
@@ -1224,10 +1227,19 @@ async fn load_delegations(
     max_targets_size: u64,
     delegation: &mut Delegations,
     datastore: &Datastore,
+    ancestors: &[String],
 ) -> Result<()> {
     let mut delegated_roles: HashMap<String, Option<Signed<crate::schema::Targets>>> =
         HashMap::new();
     for delegated_role in &delegation.roles {
+        // A role that is delegated to again further down its own chain of delegations (directly or
+        // through other roles) would make us fetch metadata forever.
+        ensure!(
+            !ancestors.contains(&delegated_role.name),
+            error::DelegatedRolesNotConsistentSnafu {
+                name: delegated_role.name.clone(),
+            }
+        );
         // find the role file metadata
         let role_meta = snapshot
             .signed
@@ -1297,6 +1309,8 @@ async fn load_delegations(
                 })?;
         if let Some(targets) = &mut delegated_role.targets {
             if let Some(delegations) = &mut targets.signed.delegations {
+                let mut chain = ancestors.to_vec();
+                chain.push(delegated_role.name.clone());
                 load_delegations(
                     transport,
                     snapshot,
@@ -1305,6 +1319,7 @@ async fn load_delegations(
                     max_targets_size,
                     delegations,
                     datastore,
+                    &chain,
                 )
                 .await?;
             }
